@@ -21,6 +21,7 @@ RULE = (
     "hit, boundary tie, second cell, miss} x select_points {error, drop} x extract_dataframe {error, "
     "drop, fill} with an extra string column and custom point_dimension.  Non-trivial: lists with a "
     "repeat, a non-monotone order or at least one miss."
+    ' Also: datasets with other dimensions of length one, overlapping cells, requests with blank (NaN) coordinates, and the history select / assign a variable in place / select again.'
 )
 LEVEL_TEXT = ('every index list of length <=3 over 4 cells (repeats, all orders) on every grid kind, every point list of length <=4 over {hit, tie, second, miss} under every missing-point policy, for select_index(es), select_points and extract_dataframe, compared with builder labels')
 LEVEL_NOTE = ('pandas/xarray merge semantics; all-miss with drop may be refused')
